@@ -189,14 +189,14 @@ Theorem ps_modify_spec fe p v now o ok o' :
   (forall q, ps_incomp p q -> ps_get_attr q o' = ps_get_attr q o) /\
   (ps_orig_dict o' = ps_orig_dict o \/
    (ps_dcontains p (ps_orig_dict o) = false /\ ps_orig_dict o' = ps_dset p (ps_get_attr p o) (ps_orig_dict o))) /\
-  (ps_dcontains p (ps_orig_dict o') = true \/ ps_m_fields o' = ps_m_fields o).
+  (if ok then ps_dcontains p (ps_orig_dict o') = true else ps_m_fields o' = ps_m_fields o).
 Proof.
   intros Hmod (fi & Hfi & Hcfg) Hnd. unfold ps_modify_attribute in Hmod. unfold ps_field_of in Hfi.
   unfold ps_get_attr in Hnd |- * at 3.
   destruct (ps_split p) as [|f rest] eqn:Hsp.
-  { inversion Hmod; subst. repeat split; auto. }
+  { inversion Hmod; subst. split; [auto | split; [left; reflexivity | reflexivity]]. }
   rewrite Hfi in Hmod. destruct (ps_fi_nomod fi).
-  { inversion Hmod; subst. repeat split; auto. }
+  { inversion Hmod; subst. split; [auto | split; [left; reflexivity | reflexivity]]. }
   rewrite Hcfg in Hmod.
   remember (match ps_m_orig o with
             | Some _ => o
@@ -217,12 +217,12 @@ Proof.
         intros restq Ht. exfalso. exact (ps_tincomp_nil_l _ (ps_tincomp_sym _ _ Ht)).
       * unfold ps_orig_dict at 1 3. cbn [ps_m_orig]. unfold ps_orig_dict at 1 in Hc. cbn [ps_m_orig] in Hc.
         destruct Hc as [Hc|[Hc1 Hc2]]; [left; exact Hc | right; split; [exact Hc1 | exact Hc2]].
-      * left. unfold ps_orig_dict at 1. cbn [ps_m_orig]. destruct (ps_dcontains p (ps_orig_dict o)) eqn:E; [exact E | apply ps_dcontains_dset].
+      * cbv iota. unfold ps_orig_dict at 1. cbn [ps_m_orig]. destruct (ps_dcontains p (ps_orig_dict o)) eqn:E; [exact E | apply ps_dcontains_dset].
     + split; [|split].
       * intros q _. apply ps_get_attr_same_fields. reflexivity.
       * unfold ps_orig_dict at 1 3. cbn [ps_m_orig]. unfold ps_orig_dict at 1 in Hc. cbn [ps_m_orig] in Hc.
         destruct Hc as [Hc|[Hc1 Hc2]]; [left; exact Hc | right; split; [exact Hc1 | exact Hc2]].
-      * right. reflexivity.
+      * reflexivity.
   - (* nested *)
     set (rest := r :: rest') in *.
     set (ks := removelast rest) in *. set (l := last rest []) in *.
@@ -234,12 +234,12 @@ Proof.
     2:{ inversion Hmod; subst ok o'. split; [|split].
         - intros q _. apply ps_get_attr_same_fields. exact Hf1.
         - left. exact Ho1.
-        - right. exact Hf1. }
+        - exact Hf1. }
     destruct (ps_nest_set ks l v start) as [nv|] eqn:Hset.
     2:{ inversion Hmod; subst ok o'. split; [|split].
         - intros q _. apply ps_get_attr_same_fields. exact Hf1.
         - left. exact Ho1.
-        - right. exact Hf1. }
+        - exact Hf1. }
     destruct (ps_nest_set_is_dict _ _ _ _ _ Hset) as (nd & ->).
     assert (ps_nest_get rest oldf = ov) as Hov.
     { rewrite Hrest. destruct oldf eqn:Eo; cbn in start; subst start; try (apply ps_nest_old_get; exact Hold).
@@ -257,7 +257,7 @@ Proof.
       rewrite ps_nest_get_of_empty. apply ps_nest_get_of_nil. intros ->. exact (ps_tincomp_nil_l _ Ht).
     + unfold ps_orig_dict at 1 3. cbn [ps_m_orig]. rewrite Hov.
       destruct (ps_dcontains p (ps_orig_dict o)); [left; reflexivity | right; split; reflexivity].
-    + left. unfold ps_orig_dict at 1. cbn [ps_m_orig].
+    + cbv iota. unfold ps_orig_dict at 1. cbn [ps_m_orig].
       destruct (ps_dcontains p (ps_orig_dict o)) eqn:E; [exact E | apply ps_dcontains_dset].
 Qed.
 
